@@ -122,6 +122,16 @@ impl GenModel {
             .sum::<f64>()
             + self.offset
     }
+    /// Constant term of the objective as a front door sees it: `ModelBuilder::satisfy()`
+    /// takes no expression, so through the builder a feasibility model has no offset.
+    pub fn offset_as_seen_by(&self, builder: bool) -> f64 {
+        if builder && self.sense == Sense::Satisfy {
+            0.0
+        } else {
+            self.offset
+        }
+    }
+
     pub fn row_activity(&self, row: usize, x: &[f64]) -> f64 {
         self.rows[row]
             .coefs
@@ -137,10 +147,8 @@ impl GenModel {
         if self.obj.len() != n || !self.offset.is_finite() {
             return false;
         }
-        // a feasibility objective has no constant term in any front end
-        if self.sense == Sense::Satisfy && self.offset != 0.0 {
-            return false;
-        }
+        // (a feasibility objective may carry a constant: the text front end produces one;
+        // the builder cannot express it, which `objective_as_seen_by` accounts for)
         let mut names = std::collections::BTreeSet::new();
         for v in &self.vars {
             if !names.insert(v.name.clone()) {
